@@ -664,3 +664,120 @@ func execL3Trunc(a []string) vlib.Res {
 	}
 	return vlib.Res{Impl: impl, Oracle: or, Tags: "nt"}
 }
+
+// fail l3v6 <recursion_firewall mode off|shadow|enforce> <aaaa outcome servfail|refused|nodata>
+// The detached IPv6 name-server address job (Resolver.lookupV6Nss) is optional
+// enrichment of a delegation that already works over IPv4. Its failures are
+// never shared state, whatever the accounting mode. Real pipeline with IPv6
+// access on; child.test. is delegated to hosts in nsfarm.test. that have A
+// records only; AAAA questions at nsfarm.test. fail. The client's own query
+// succeeds; afterwards nothing may be retained for anybody.
+func execL3V6(a []string) vlib.Res {
+	mode, aaaa := a[0], a[1]
+	w := l3.NewWorld(false)
+	defer w.Close()
+	w.AddZone("test.", l3.ZoneOpts{})
+	farm := w.AddZone("nsfarm.test.", l3.ZoneOpts{NSTTL: 3600})
+	child := w.AddZone("child.test.", l3.ZoneOpts{NSTTL: 3600, NSHosts: []string{"nsc1.nsfarm.test.", "nsc2.nsfarm.test."}, NoGlue: true})
+	child.Add("www.child.test. 300 IN A 192.0.2.220")
+	ip := child.Servers[0].IP.String()
+	farm.Add("nsc1.nsfarm.test. 3600 IN A "+ip, "nsc2.nsfarm.test. 3600 IN A "+ip)
+	srv := farm.Servers[0]
+	base := srv.UDPQueries.Load()
+	var aaaaSeen atomic.Int64
+	srv.SetBehaviour(l3.Behaviour{Rcode: func(q dns.Question) int {
+		if q.Qtype != dns.TypeAAAA {
+			return -1
+		}
+		aaaaSeen.Add(1)
+		switch aaaa {
+		case "servfail":
+			return dns.RcodeServerFailure
+		case "refused":
+			return dns.RcodeRefused
+		}
+		return -1 // honest NODATA
+	}})
+	_ = base
+	p := l3.NewPipe(w, l3.PipeOpts{Tweak: func(cfg *config.Config) {
+		cfg.IPv6Access = true
+		cfg.Timeout.Duration = 500 * time.Millisecond
+		cfg.QueryTimeout.Duration = 8 * time.Second
+		cfg.RecursionFirewall.Mode = config.RecursionFirewallMode(mode)
+	}})
+	defer p.Close()
+	r := p.Query("www.child.test.", dns.TypeA, l3.Flags{})
+	// wait for the detached job: it starts after a short grace, asks AAAA for every host
+	deadline := time.Now().Add(4 * time.Second)
+	for time.Now().Before(deadline) && aaaaSeen.Load() < 2 {
+		time.Sleep(10 * time.Millisecond)
+	}
+	time.Sleep(300 * time.Millisecond)
+	var retained []string
+	for _, e := range cache.VerifC13Entries(cache.VerifC13FailureOf(p.Cache)) {
+		if e.Kind == cache.FailureKindQuestion {
+			retained = append(retained, fmt.Sprintf("%s/%d", e.Question.Question.Name, e.Question.Question.Qtype))
+		} else {
+			retained = append(retained, "zone:"+e.Zone.Zone)
+		}
+	}
+	impl := "answer retained=-"
+	or := "ok"
+	if aaaaSeen.Load() == 0 {
+		or = "-" // the optional job never ran: nothing to judge
+	}
+	if rc(r) != dns.RcodeSuccess || len(retained) > 0 {
+		impl = fmt.Sprintf("rcode=%d retained=%s", rc(r), strings.Join(retained, ","))
+	}
+	if len(retained) > 0 {
+		or = "FAIL sig=l3v6/optional-ipv6-enrichment-failure-became-shared-state retained=" + strings.Join(retained, ",") + " mode=" + mode
+	}
+	return vlib.Res{Impl: impl, Oracle: or, Tags: "nt"}
+}
+
+// v6Queryer records under which request-tree marks the AAAA sub-lookups run.
+type v6Queryer struct {
+	asked      int
+	bestEffort int
+}
+
+func (q *v6Queryer) Query(ctx context.Context, req *dns.Msg) (*dns.Msg, error) {
+	q.asked++
+	if middleware.IsBestEffortRecursionWork(ctx) {
+		q.bestEffort++
+	}
+	resp := new(dns.Msg)
+	resp.SetRcode(req, dns.RcodeServerFailure)
+	return resp, nil
+}
+
+// fail nss6 <ledger t/f> <hosts>
+// The real Resolver.lookupV6Nss with a scripted queryer: every AAAA sub-lookup
+// of the detached job must run marked as optional (best-effort) work — with
+// and without a recursion-work ledger in the tree — because that mark is what
+// keeps its failures out of the failure cache and out of zone records.
+var nss6Pipe *l3.Pipe // a resolver with IPv6 access (it owns the IPv6 glue cache the job consults)
+
+func execNss6(a []string) vlib.Res {
+	if nss6Pipe == nil {
+		w := l3.NewWorld(false)
+		nss6Pipe = l3.NewPipe(w, l3.PipeOpts{Tweak: func(cfg *config.Config) { cfg.IPv6Access = true }})
+	}
+	ledger, n := a[0] == "t", vlib.Atoi(a[1])
+	seq := nssSeq.Add(1)
+	var hosts []string
+	for i := 0; i < n; i++ {
+		hosts = append(hosts, fmt.Sprintf("h%d-%d.nss6-c13.example.", i, seq))
+	}
+	ctx, _ := middleware.EnsureResolutionAttemptGuard(context.Background())
+	if ledger {
+		ctx = middleware.WithRecursionWork(ctx, middleware.NewRecursionWorkLedger(middleware.RecursionWorkPolicy{Mode: middleware.RecursionWorkShadow, MaxOutboundQueries: 100, MaxInternalQueries: 100}))
+	}
+	q := &v6Queryer{}
+	resolver.VerifC13LookupV6Nss(nss6Pipe.Resolver, q, ctx, fmt.Sprintf("z%d.nss6-c13.example.", seq), hosts)
+	or := "ok"
+	if q.bestEffort != q.asked {
+		or = fmt.Sprintf("FAIL sig=nss6/optional-enrichment-sub-lookup-ran-unmarked ledger=%s unmarked=%d", a[0], q.asked-q.bestEffort)
+	}
+	return vlib.Res{Impl: fmt.Sprintf("asked=%d besteffort=%d", q.asked, q.bestEffort), Oracle: or, Tags: "nt"}
+}
